@@ -169,8 +169,11 @@ def _serialize_recursive(
 
 
 def _pointer_segment(key: str) -> str:
-    """Escape a definitions key for use in a JSON pointer (RFC 6901)."""
-    return key.replace("~", "~0").replace("/", "~1")
+    """Escape a definitions key for use in a JSON pointer (RFC 6901).
+
+    The pointer is written as a URI fragment, which resolvers percent-decode.
+    """
+    return key.replace("%", "%25").replace("~", "~0").replace("/", "~1")
 
 
 def _from_definitions(
